@@ -36,6 +36,14 @@ def make_scenarios(ctx, n):
             o1 = dict(o1, sfc=ctx.rng.choice([0, 1, 2]), mbs=ctx.rng.choice([8, 64]))       # every file its own block
         elif i % 4 == 2:
             o1 = dict(o1, sfc=1 << 20, mbs=len(dup))                                       # each dup fills a combined block alone
+        if i % 4 == 0:
+            # larger small files (past any size threshold a combiner might apply) whose contents recur after a
+            # combined block has been flushed in between: A C | D A | C ...  with two files per combined block
+            size = ctx.rng.choice([512, 520, 640])
+            big = [gen.rand_bytes(ctx.rng, size) for _ in range(3)]
+            for k, which in enumerate([0, 1, 2, 0, 1]):
+                t1["c"][f"q{k}"] = {"k": "f", "data": big[which].hex(), "mode": 0o644, "mtime": 10**18 + 200 + k}
+            o1 = dict(o1, sfc=1 << 20, mbs=size + size // 2)
         out.append({"id": f"S{i}", "t0": t0, "o0": scen.small_opts(ctx.rng), "t1": t1, "o1": o1})
     return out
 
